@@ -1,6 +1,6 @@
 From Coq Require Import Lia.
 (* C08 — Truncated or failing input never fabricates data. *)
-From VF Require Import Model.Reader Model.Compiler Proofs.ReaderProps Gen.GeneratedOk.
+From VF Require Import Model.Reader Model.Compiler Proofs.ReaderProps Proofs.UnionExt Gen.GeneratedOk.
 From VF Require Proofs.CompilerProps Proofs.CompiledRoundTrip Proofs.CompilerGaps Proofs.CompilerStatic Proofs.CompiledAligned.
 Open Scope string_scope. Open Scope list_scope. Open Scope Z_scope.
 
@@ -14,6 +14,15 @@ Proof. exact read_top_prefix_stable. Qed.
 Theorem extension_stable : forall c fuel t, simple t = true ->
   forall s1 s2 pos ctx r, read_ty c fuel t s1 pos ctx = Ok r -> read_ty c fuel t (s1 ++ s2) pos ctx = Ok r.
 Proof. exact read_ty_ext. Qed.
+(* ... and for the universe extended by DYNAMICALLY SIZED unions (`simple_u`: a union none of whose sizes is static, over members of the class): since
+   the union's extent is the furthest end any member reached, the buffer it re-reads is what its members consumed, and cutting the input can only
+   make it fail.  (A union of static size reads its declared size in one go and, at the end of the input, keeps a short raw buffer: its members
+   are stable, the buffer is not - those stay with the oracle.) *)
+Theorem extension_stable_with_dynamic_unions : forall c fuel t, simple_u c t = true ->
+  forall s1 s2 pos ctx r, read_ty c fuel t s1 pos ctx = Ok r -> read_ty c fuel t (s1 ++ s2) pos ctx = Ok r.
+Proof. exact read_ty_ext_u. Qed.
+Theorem simple_types_are_in_the_extended_class : forall c t, simple t = true -> simple_u c t = true.
+Proof. exact simple_simple_u. Qed.
 (* more loop fuel never changes a result (the fuel is a proof device, not a behaviour) *)
 Theorem fuel_irrelevant : forall c t, simple t = true ->
   forall f f' s pos ctx r, (f <= f')%nat -> read_ty c f t s pos ctx = Ok r -> read_ty c f' t s pos ctx = Ok r.
@@ -36,6 +45,7 @@ Theorem compiled_aligned_reader_extension_stable : forall c fuel nm fs p,
   forall s1 s2 pos r, 0 <= pos -> read_compiled c fuel true fs s1 pos = Ok r -> read_compiled c fuel true fs (s1 ++ s2) pos = Ok r.
 Proof. exact CompiledAligned.compiled_aligned_extension_stable. Qed.
 
+Print Assumptions extension_stable_with_dynamic_unions.
 Print Assumptions compiled_aligned_reader_extension_stable.
 Print Assumptions compiled_reader_extension_stable.
 Print Assumptions prefix_stable.
@@ -74,3 +84,13 @@ Proof.
   - eexists. vm_compute. reflexivity.
   - vm_compute; reflexivity.
 Qed.
+
+(* non-vacuity: struct { uint8 k; union { char s[]; uint8 n; } u; uint16 t; } - the union spans the NUL-terminated string, t follows it *)
+Definition exu_ty := TStruct "m" [Fld "k" false (TPrim (PInt 1 false true) 1) None None;
+                                  Fld "u" false (TUnion "u" [Fld "s" false (TArr (TPrim PChar 1) LNull) None None; Fld "n" false (TPrim (PInt 1 false true) 1) None None] false) None None;
+                                  Fld "t" false (TPrim (PInt 2 false true) 2) None None] false.
+Example exu_class : simple_u ex_cfg exu_ty = true /\ simple exu_ty = false.
+Proof. split; vm_compute; reflexivity. Qed.
+Example exu_run : (exists v, read_top ex_cfg exu_ty [1; 97; 98; 0; 5; 6] 0 = Ok (v, 6) /\ read_top ex_cfg exu_ty [1; 97; 98; 0; 5; 6; 255; 255] 0 = Ok (v, 6)) /\
+  (exists er, read_top ex_cfg exu_ty [1; 97; 98; 0; 5] 0 = Err er).
+Proof. split; [eexists; split; vm_compute; reflexivity|eexists; vm_compute; reflexivity]. Qed.
